@@ -214,6 +214,47 @@ pub fn gen_wrapped(src: &mut Src, _i: usize) -> Case {
     case
 }
 
+/// bulk: a single feed_str call scrolls off hundreds to thousands of lines (more than any
+/// batching threshold such as 255/256/1024/4096/8192), under small and large limits
+pub fn gen_bulk(src: &mut Src, _i: usize) -> Case {
+    let (cols, rows) = if src.chance(1, 3) { (80, 24) } else { gen::small_size(src) };
+    let limit = *src.pick(&[0usize, 0, 1, 9, 10, 100, 1000, 1024]);
+    let mut case = Case::new(cols, rows, Some(limit));
+    let n_chunks = src.range(1, 3);
+    for c in 0..n_chunks {
+        let mut s = String::new();
+        if src.chance(1, 4) {
+            s.push_str("\x1b[?1049hALT\n\n\n\x1b[?1049l");
+        }
+        let lines = *src.pick(&[255usize, 256, 300, 1023, 1024, 1025, 2048, 4097, 8193, 9000]);
+        match src.below(3) {
+            0 => {
+                for k in 0..lines {
+                    s.push_str(&format!("c{}l{}\r\n", c, k));
+                }
+            }
+            1 => {
+                // one huge soft-wrapped run
+                for k in 0..lines * cols {
+                    s.push((b'a' + (k % 26) as u8) as char);
+                }
+                s.push_str("\r\n");
+            }
+            _ => {
+                for k in 0..lines / 8 + 1 {
+                    s.push_str(&format!("x{}\r\n\x1b[7S", k));
+                }
+            }
+        }
+        case.calls.push(Call::FeedStr(s));
+        if src.chance(1, 2) {
+            case.calls.push(Call::FeedStr(format!("tail {}\r\n", c)));
+        }
+    }
+    case.calls.push(Call::FeedStr(CLOSING.to_string()));
+    case
+}
+
 /// long sessions: hundreds of chunks, thousands of lines, limits up to 1024
 pub fn gen_long_session(src: &mut Src, _i: usize) -> Case {
     let (cols, rows) = if src.chance(1, 3) { (80, 24) } else { gen::small_size(src) };
@@ -288,6 +329,7 @@ pub fn run(env: &Env) -> PropRun {
     let mut parts = vec![];
     let ep = enum_paths();
     parts.push(run_part(env, "enum-paths", ep.len(), true, "3 sizes x 8 limits x 7 session bodies (LF flood, long wrapped line, DL at the top row, top-anchored partial region, 1049 excursion with garbage, SU incl. 65535, coloured lines) x chunk sizes {1,7,whole}", &|i| ep.get(i).cloned(), &j));
+    parts.push(random_part(env, "bulk-chunks", env.tier.scale(160, 20), &gen_bulk, &j));
     parts.push(random_part(env, "long-sessions", env.tier.scale(300, 30), &gen_long_session, &j));
     parts.push(random_part(env, "wrapped-lines", env.tier.scale(60_000, 30), &gen_wrapped, &j));
     parts.push(random_part(env, "random-sessions", env.tier.scale(60_000, 30), &gen_case, &j));
